@@ -11,4 +11,4 @@ Definition holds (c : tcase) (l : list tr) : list string :=
   filter (has_tag (if has_foreign l
                    then ["C09:"; "C02:timeout_at_deadline"; "C02:delivery_after_deadline"]
                    else ["C09:"])%string) (monitor c l).
-Definition entry := tftp_entry holds proj_timing.
+Definition entry := tftp_entry validb holds proj_timing.
